@@ -2757,9 +2757,7 @@ class sptensor:
         # Case 1: One argument is a scalar
         if isinstance(other, (float, int)):
             if other == 0:
-                return ttb.sptensor(
-                    self.subs, True * np.ones((self.subs.shape[0], 1)), self.shape
-                )
+                return ttb.sptensor(self.subs, True * np.ones((self.nnz, 1)), self.shape)
             subs1 = np.empty(shape=(0, self.ndims), dtype=int)
             if self.nnz > 0:
                 subs1 = self.subs[self.vals.transpose()[0] != other, :]
@@ -2767,7 +2765,8 @@ class sptensor:
             subs2 = self.allsubs()[subs2Idx, :]
             return ttb.sptensor(
                 np.vstack((subs1, subs2)),
-                True * np.ones((subs2.shape[0], 1)).astype(self.vals.dtype),
+                True
+                * np.ones((subs1.shape[0] + subs2.shape[0], 1)).astype(self.vals.dtype),
                 self.shape,
             )
 
@@ -2820,13 +2819,11 @@ class sptensor:
                 subs1Idx = tt_setdiff_rows(self.allsubs(), unionSubs)
                 subs1 = self.allsubs()[subs1Idx]
             else:
-                subs1 = np.empty((0, self.ndims))
+                subs1 = np.empty((0, self.ndims), dtype=int)
             # find entries where x is nonzero but not equal to y
-            subs2 = np.empty((0, self.ndims))
+            subs2 = np.empty((0, self.ndims), dtype=int)
             if self.nnz > 0:
                 subs2 = self.subs[self.vals.transpose()[0] != other[self.subs], :]
-            if subs2.size == 0:
-                subs2 = np.empty((0, self.ndims))
             # put it all together
             return ttb.sptensor(
                 np.vstack((subs1, subs2)),
